@@ -22,7 +22,10 @@
 #include <boost/gil/io/row_buffer_helper.hpp>
 #include <boost/gil/io/typedefs.hpp>
 
+#include <algorithm>
+#include <cstddef>
 #include <type_traits>
+#include <vector>
 
 namespace boost { namespace gil {
 
@@ -269,6 +272,27 @@ private:
 
         png_bytep row_ptr = (png_bytep)( &( buffer.data()[0]));
 
+        // Interlaced images: libpng combines the pixels of a pass with what the row
+        // given to it already holds, so every row has to keep the result of the earlier passes.
+        std::vector< png_byte > interlaced_rows( this->_number_passes > 1
+                                               ? rowbytes * this->_info._height
+                                               : 0
+                                               );
+        auto read_row = [&]( std::ptrdiff_t row )
+        {
+            png_bytep kept = interlaced_rows.empty() ? nullptr : &interlaced_rows[ rowbytes * row ];
+            if( kept ) std::copy( kept, kept + rowbytes, row_ptr );
+
+            // Read the image using the "sparkle" effect.
+            png_read_rows( this->get_struct()
+                         , &row_ptr
+                         , nullptr
+                         , 1
+                         );
+
+            if( kept ) std::copy( row_ptr, row_ptr + rowbytes, kept );
+        };
+
         for( std::size_t pass = 0; pass < this->_number_passes; pass++ )
         {
             if( pass == this->_number_passes - 1 )
@@ -276,12 +300,7 @@ private:
                 // skip lines if necessary
                 for( std::ptrdiff_t y = 0; y < this->_settings._top_left.y; ++y )
                 {
-                    // Read the image using the "sparkle" effect.
-                    png_read_rows( this->get_struct()
-                                 , &row_ptr
-                                 , nullptr
-                                 , 1
-                                 );
+                    read_row( y );
                 }
 
                 for( std::ptrdiff_t y = 0
@@ -289,12 +308,7 @@ private:
                    ; ++y
                    )
                 {
-                    // Read the image using the "sparkle" effect.
-                    png_read_rows( this->get_struct()
-                                 , &row_ptr
-                                 , nullptr
-                                 , 1
-                                 );
+                    read_row( this->_settings._top_left.y + y );
 
                     it_t first = buffer.begin() + this->_settings._top_left.x;
                     it_t last  = first + this->_settings._dim.x; // one after last element
@@ -313,24 +327,15 @@ private:
                    ; ++y
                    )
                 {
-                    // Read the image using the "sparkle" effect.
-                    png_read_rows( this->get_struct()
-                                 , &row_ptr
-                                 , nullptr
-                                 , 1
-                                 );
+                    read_row( this->_settings._top_left.y + this->_settings._dim.y + y );
                 }
             }
             else
             {
-                for( int y = 0; y < view.height(); ++y )
+                // an earlier pass of an interlaced image: every row of the image takes part
+                for( std::ptrdiff_t y = 0; y < static_cast< std::ptrdiff_t >( this->_info._height ); ++y )
                 {
-                    // Read the image using the "sparkle" effect.
-                    png_read_rows( this->get_struct()
-                                 , &row_ptr
-                                 , nullptr
-                                 , 1
-                                 );
+                    read_row( y );
                 }
             }
         }
